@@ -113,6 +113,9 @@ def gen_wide(rng, K, nlev, n_random, style, seed_rows=1):
         for k in range(K):
             m = rng.uniform(size=n) < 0.15
             df.loc[m, 'Y%d' % (k + 1)] = np.nan
+            if k > 0:       # some tables keep recording 0 after the event instead of a missing value
+                z = df['Y%d' % (k + 1)].isna() & (rng.uniform(size=n) < 0.3)
+                df.loc[z, 'Y%d' % (k + 1)] = 0.0
         # keep at most one event per row (recurrent outcomes are rejected by the constructor)
         ys = ['Y%d' % (k + 1) for k in range(K)]
         for i in np.where(df[ys].sum(axis=1, skipna=True) > 1)[0]:
@@ -166,9 +169,12 @@ def mu_args(tab, base):
 
 
 def glm_binomial(formula, data):
+    import warnings
     import statsmodels.api as sm
     import statsmodels.formula.api as smf
-    return smf.glm(formula, data, family=sm.families.family.Binomial()).fit()
+    with warnings.catch_warnings():
+        warnings.simplefilter('ignore')
+        return smf.glm(formula, data, family=sm.families.family.Binomial()).fit()
 
 
 def reference_run(chk, drv, df, K, nlev, models, plan, saturated):
@@ -221,14 +227,25 @@ def reference_run(chk, drv, df, K, nlev, models, plan, saturated):
     return ('ok', unrq(rep['value']), hdev)
 
 
-def impl_ice(df, K, models, treatments, exposures=None, outcomes=None, specify=True):
+def impl_ice(df, K, models, treatments, exposures=None, outcomes=None, specify=True, session=None):
+    """one estimate.  With `session` (a dict) the estimator object is built once and `fit` is called repeatedly on it,
+    the way the documentation uses it (fit(plan 1), fit(plan 2), ...)"""
+    import warnings
     from zepid.causal.gformula import IterativeCondGFormula
+    warnings.simplefilter('ignore')
     exposures = exposures or ['A%d' % (k + 1) for k in range(K)]
     outcomes = outcomes or ['Y%d' % (k + 1) for k in range(K)]
     try:
-        ic = IterativeCondGFormula(df, exposures=exposures, outcomes=outcomes)
-        if specify:
-            ic.outcome_model(models, print_results=False)
+        ic = session.get('obj') if session is not None else None
+        if ic is None:
+            ic = IterativeCondGFormula(df, exposures=exposures, outcomes=outcomes)
+            if specify:
+                ic.outcome_model(models, print_results=False)
+            if session is not None:
+                session['obj'] = ic
+                session['fits'] = 0
+        if session is not None:
+            session['fits'] += 1
         ic.fit(treatments)
         return ('ok', float(ic.marginal_outcome))
     except ValueError as e:
@@ -259,6 +276,7 @@ def check_wide(chk, drv, rng, df, ixstyle, K, nlev, style, models, saturated, pl
     n = len(df)
     wa = wide_args(df, K)
     key = hash(df.to_csv())
+    session = {}       # one estimator object per data set, fitted for every plan in turn
     for g in plans:
         res = {}
         for form in forms:
@@ -268,11 +286,9 @@ def check_wide(chk, drv, rng, df, ixstyle, K, nlev, style, models, saturated, pl
                 tr = np.tile(np.array(g, dtype=int), (n, 1))
             else:
                 tr = [[int(v) for v in g] for _ in range(n)]
-            res[form] = impl_ice(df, K, models, tr)
+            res[form] = impl_ice(df, K, models, tr, session=session)
+            chk.count('fits_on_a_reused_object', 1 if session.get('fits', 0) > 1 else 0)
 
-            def mk_case(form=form):
-                return {'kind': 'ice', 'K': K, 'nlev': nlev, 'style': style, 'index': ixstyle, 'models': models,
-                        'plan': [int(v) for v in g], 'form': form, 'impl': res[form], 'frame': frame_record(df)}
             chk.case(None, (key, tuple(models), tuple(g), form) if nontrivial_wide(df, K) else None,
                      sample={'K': K, 'n': n, 'nlev': nlev, 'style': style, 'index': ixstyle, 'models': models,
                              'plan': list(map(int, g)), 'form': form, 'impl': res[form]} if chk.evals % 29 == 0 else None)
@@ -326,7 +342,9 @@ def check_wide(chk, drv, rng, df, ixstyle, K, nlev, style, models, saturated, pl
                 chk.d(ok, 'IterativeCondGFormula (saturated models, %s plan) == nonparametric g-formula' % form,
                       None if ok else {'kind': 'ice', 'K': K, 'nlev': nlev, 'models': models,
                                        'plan': list(map(int, g)), 'form': form, 'impl': st, 'npg': want,
-                                       'npg_exact': rep['value'], 'frame': frame_record(df)})
+                                       'npg_exact': rep['value'], 'frame': frame_record(df),
+                                       'earlier_plans_on_same_object': [list(map(int, p)) for p in plans[:plans.index(g)]],
+                                       'forms': forms})
 
 
 def check_varying_plan(chk, drv, rng, df, ixstyle, K, nlev, style, models, saturated):
@@ -511,6 +529,7 @@ def long_args(df, cond, h1=None, h0=None):
 
 
 def check_long(chk, drv, rng, df, model, saturated, tag):
+    """all four treatments on one estimator object, in random order"""
     from zepid.causal.gformula import SurvivalGFormula
     key = hash(df.to_csv())
     cc = df.dropna()
@@ -541,10 +560,14 @@ def check_long(chk, drv, rng, df, model, saturated, tag):
                 chk.discard('reference hazard fit off its cell means / score equations (or empty arm x time cell)')
         except Exception as e:
             chk.discard('reference hazard fit raised %s' % type(e).__name__)
-    for treat, plan in (('all', 'all'), ('none', 'none'), ('natural', 'natural'), ("g['B']==1", 'custom')):
+    sg = None
+    order = [('all', 'all'), ('none', 'none'), ('natural', 'natural'), ("g['B']==1", 'custom')]
+    order = [order[i] for i in rng.permutation(4)]
+    for treat, plan in order:
         try:
-            sg = SurvivalGFormula(df, idvar='id', exposure='A', outcome='Y', time='t')
-            sg.outcome_model(model=model, print_results=False)
+            if sg is None:      # one estimator object, fitted for the four treatments in turn (documented usage)
+                sg = SurvivalGFormula(df, idvar='id', exposure='A', outcome='Y', time='t')
+                sg.outcome_model(model=model, print_results=False)
             sg.fit(treatment=treat)
             pdf = sg.predicted_df[['id', 't', 'Y']].copy()
             marg = sg.marginal_outcome
@@ -554,7 +577,8 @@ def check_long(chk, drv, rng, df, model, saturated, tag):
         nontriv = bool((cc['Y'] == 1).any()) and cc['A'].nunique() == 2 and cc.groupby('id').size().max() > 1
 
         def mk(extra=None):
-            r = {'kind': 'sgf', 'model': model, 'treatment': treat, 'impl_status': st, 'frame': frame_record(df)}
+            r = {'kind': 'sgf', 'model': model, 'treatment': treat, 'impl_status': st, 'frame': frame_record(df),
+                 'treatments_in_order_on_same_object': [o[0] for o in order]}
             r.update(extra or {})
             return r
         chk.case(None, (key, model, treat) if nontriv else None,
@@ -615,7 +639,7 @@ def run(chk, drv, rng, tier):
     quick = tier == 'quick'
     # ---- IterativeCondGFormula, saturated models: all static plans, every plan form
     sets = [(1, 2, 3), (1, 3, 2), (2, 2, 4), (2, 3, 2), (3, 2, 3)] if quick else \
-        [(1, 2, 10), (1, 3, 8), (2, 2, 12), (2, 3, 6), (3, 2, 8), (3, 3, 1)]
+        [(1, 2, 24), (1, 3, 16), (2, 2, 36), (2, 3, 16), (3, 2, 24), (3, 3, 3)]
     for K, nlev, reps in sets:
         for rep in range(reps):
             style = ('surv', 'surv_na')[rep % 2]
@@ -631,7 +655,7 @@ def run(chk, drv, rng, tier):
             if rep == 0:
                 check_malformed(chk, drv, rng, df, K, nlev, models)
     # ---- K only: unsaturated models, censored / non-monotone outcome patterns, per-individual varying plans
-    for rep in range(12 if quick else 60):
+    for rep in range(12 if quick else 200):
         K = 1 + (rep // 4 + rep) % 3
         nlev = 2 if K == 3 else int(rng.integers(2, 4))
         style = ('surv', 'censor', 'holes', 'surv_na')[rep % 4]
@@ -643,10 +667,10 @@ def run(chk, drv, rng, tier):
         check_wide(chk, drv, rng, df, ixs, K, nlev, style, models, sat, [g], ['single', 'ndarray'])
         check_varying_plan(chk, drv, rng, df, ixs, K, nlev, style, models, sat)
     # ---- single time point vs TimeFixedGFormula
-    for rep in range(4 if quick else 30):
+    for rep in range(4 if quick else 100):
         check_single_t(chk, drv, rng, tier)
     # ---- SurvivalGFormula
-    for rep in range(8 if quick else 40):
+    for rep in range(8 if quick else 150):
         T = int(rng.integers(2, 7))
         df = gen_long(rng, int(rng.integers(40, 160)), T, censor=float(rng.choice([0.0, 0.1, 0.25])),
                       with_na=rep % 2 == 1)
@@ -676,7 +700,15 @@ def replay(rec):
             else:
                 tr = [c['plan']] * len(df)
             with common.quiet():
-                st = impl_ice(df, K, c['models'], tr)
+                sess = {}
+                for p0 in c.get('earlier_plans_on_same_object', []):
+                    for f0 in c.get('forms', ['single']):
+                        impl_ice(df, K, c['models'], p0 if f0 == 'single' else [p0] * len(df), session=sess)
+                for f0 in c.get('forms', []):
+                    if f0 == c.get('form'):
+                        break
+                    impl_ice(df, K, c['models'], c['plan'] if f0 == 'single' else [c['plan']] * len(df), session=sess)
+                st = impl_ice(df, K, c['models'], tr, session=sess)
                 one = impl_ice(df, K, c['models'], c['plan']) if 'plan' in c else None
             print('impl now:', st, ' single-row plan:', one, ' stored:', c.get('impl') or c.get('rowwise'))
             if drv is not None and 'plan' in c:
@@ -698,6 +730,10 @@ def replay(rec):
                 try:
                     sg = SurvivalGFormula(df, idvar='id', exposure='A', outcome='Y', time='t')
                     sg.outcome_model(model=c['model'], print_results=False)
+                    for t0 in c.get('treatments_in_order_on_same_object', []):
+                        if t0 == c['treatment']:
+                            break
+                        sg.fit(treatment=t0)
                     sg.fit(treatment=c['treatment'])
                     marg = sg.marginal_outcome
                 except Exception as e:
